@@ -82,33 +82,27 @@ def run(ctx, rep):
                "`%s`" % A.src(v) if ok else "tuple elements are not boxed one by one: `%s`" % A.src(v), ctx.loc(t))
 
     # ------------------------------------------------------------------ R10.2
-    fu = ctx.func(K.CONN + "._unbox")
-    gu = ctx.cfg(fu)
+    um = K.unbox_model(ctx)
+    fu, gu = um.f, um.g
     rep.analysed(fu, gu)
-    RR = ctx.const("rpyc.core.consts", "LABEL_REMOTE_REF")
-    branch = [n for n in gu.live if n.kind == "test" and isinstance(n.ast, ast.Compare) and len(n.ast.comparators) == 1
-              and ctx.try_fold(n.ast.comparators[0]) == RR]
-    rep.floor("R10.2", "_unbox remote-reference branch", len(branch), 1)
+    live = um.nodes("LABEL_REMOTE_REF")
+    rep.floor("R10.2", "_unbox remote-reference branch", len(um.returns("LABEL_REMOTE_REF")), 1)
     incs = [n for n in gu.live if n.kind == "stmt" and isinstance(n.ast, ast.AugAssign) and
             isinstance(n.ast.target, ast.Attribute) and n.ast.target.attr == "____refcount__"]
     sets = [n for n in gu.live if n.kind == "stmt" and isinstance(n.ast, ast.Assign) and any(
         isinstance(t, ast.Attribute) and t.attr == "____refcount__" for t in n.ast.targets)]
     facts = [n for n in gu.live if n.kind == "stmt" and n.ast is not None and A.find_calls(n.ast, "self._netref_factory")]
     ev = {n.id for n in incs + facts}
-    for b in branch:
-        starts = [t for t, l in b.succ if l == "true"]
-        for s in starts:
-            c2 = Q.count_on_paths(gu, s, lambda n: n.id in ev, labels=("next", "true", "false"))
-            rnodes = [n for n in Q.reach([s], labels=("next", "true", "false")) if isinstance(n.ast, ast.Return)]
-            at = frozenset()
-            for r in rnodes:
-                at |= c2.get(r.id, frozenset())
-            ok = at == frozenset([1])
-            rep.ob("R10.2", "_unbox: each received reference adds exactly one count on the proxy side", ok,
-                   "every path bumps the cached proxy's count once or creates one fresh proxy" if ok else
-                   "a received reference is accounted %s times on the proxy side (bump-or-create must be exactly one): "
-                   "the finalizer later returns too %s" % (sorted(at), "few (owner leaks)" if 0 in at else "many (owner drops a live object)"),
-                   ctx.loc(b))
+    c2 = Q.count_on_paths(gu, gu.entry, lambda n: n.id in ev, edge_ok=um.edge_ok("LABEL_REMOTE_REF"))
+    at = frozenset()
+    for r in um.returns("LABEL_REMOTE_REF"):
+        at |= c2.get(r.id, frozenset())
+    ok = at == frozenset([1])
+    rep.ob("R10.2", "_unbox: each received reference adds exactly one count on the proxy side", ok,
+           "every path bumps the cached proxy's count once or creates one fresh proxy" if ok else
+           "a received reference is accounted %s times on the proxy side (bump-or-create must be exactly one): "
+           "the finalizer later returns too %s" % (sorted(at), "few (owner leaks)" if 0 in at else "many (owner drops a live object)"),
+           fu.loc)
     for i in incs:
         ok = isinstance(i.ast.op, ast.Add) and ctx.try_fold(i.ast.value) == 1
         rep.ob("R10.2", "_unbox: the cached proxy's count grows by one", ok, "`%s`" % A.norm(i.ast) if ok else
